@@ -306,12 +306,18 @@ def handle (st : DState) (req : Sexp) : DState × String :=
     let decl? : Sexp → Option DG.Trace.Decl := fun
       | .list [n, e, d, .list (.atom "refs" :: rs)] => do
         pure { name := ← nat? n, exported := ← bool? e, isDefault := ← bool? d, refs := ← nats? rs }
+      | .list [n, e, d, .list (.atom "refs" :: rs), .list (.atom "qrefs" :: qs)] => do
+        pure { name := ← nat? n, exported := ← bool? e, isDefault := ← bool? d, refs := ← nats? rs, qrefs := ← qs.mapM pair? }
       | _ => none
     let mod? : Sexp → Option DG.Trace.Mod := fun
       | .list [.list (.atom "decls" :: ds), .list (.atom "imports" :: is), .list (.atom "from" :: fs),
                .list (.atom "stars" :: ss), .list (.atom "locals" :: ls)] => do
         pure { decls := ← ds.mapM decl?, imports := ← is.mapM triple?, exportFrom := ← fs.mapM triple?,
                stars := ← nats? ss, exportLocal := ← ls.mapM pair? }
+      | .list [.list (.atom "decls" :: ds), .list (.atom "imports" :: is), .list (.atom "from" :: fs),
+               .list (.atom "stars" :: ss), .list (.atom "locals" :: ls), .list (.atom "nsimports" :: ns)] => do
+        pure { decls := ← ds.mapM decl?, imports := ← is.mapM triple?, exportFrom := ← fs.mapM triple?,
+               stars := ← nats? ss, exportLocal := ← ls.mapM pair?, nsImports := ← ns.mapM pair? }
       | _ => none
     match ms.mapM mod?, nats? es with
     | some w, some es =>
